@@ -265,40 +265,126 @@ def _chord_cumsum(mod, f):
     return False, "unmodelled: displacement %s" % mod.code(d)[:80]
 
 
+def _nearer_neighbour(test):
+    """`i1 + 1` / `i1 - 1`: the neighbour whose segment is nearer when `test` holds, for tests
+    of the form [not] closest_approach(.., positions[i1 +- 1]) <op> closest_approach(.., positions[i1 -+ 1])"""
+    neg = False
+    while isinstance(test, ast.UnaryOp) and isinstance(test.op, ast.Not):
+        neg, test = not neg, test.operand
+    if not (isinstance(test, ast.Compare) and len(test.ops) == 1):
+        return None
+    sides = []
+    for x in (test.left, test.comparators[0]):
+        if not (isinstance(x, ast.Call) and ast.unparse(x.func).endswith("closest_approach")):
+            return None
+        t = ast.unparse(x).replace(" ", "")
+        plus, minus = "[i1+1]" in t, "[i1-1]" in t
+        if plus == minus:
+            return None
+        sides.append("i1 + 1" if plus else "i1 - 1")
+    if sides[0] == sides[1]:
+        return None
+    op = test.ops[0]
+    if isinstance(op, (ast.Lt, ast.LtE)):
+        first_nearer = True
+    elif isinstance(op, (ast.Gt, ast.GtE)):
+        first_nearer = False
+    else:
+        return None
+    if neg:
+        first_nearer = not first_nearer
+    return sides[0] if first_nearer else sides[1]
+
+
 def neighbour_rules(mod, rep):
     """FineContour.getDistance interpolates between the closest fine point i1 and one of its
     neighbours i1-1 / i1+1.  A neighbour may be ruled out only because it does not exist (index
     below 0 or beyond the last point of the *array*) - the fine contour extends past startInd /
     endInd exactly so that guard-cell points are interpolated, not extrapolated; where both exist
-    the choice is by the closest approach to the two adjacent segments."""
+    the choice is by the closest approach to the two adjacent segments.
+
+    Decided over the finite set of orderings of i1 against 0 and n-1: the index tests are
+    evaluated for n in 2..6 and every i1 in range(n) (they are comparisons of i1 +- const with
+    the array length, nothing else is accepted), the geometric test is left free."""
     from ..stores import effects
     g = mod.funcs.get("FineContour.getDistance")
     if g is None:
         raise AnalysisError("FineContour.getDistance not found")
-    stores = [e for e in effects(g.node, inline=False) if e.kind == "store" and isinstance(e.target, ast.Name) and e.target.id == "i2"]
-    length = (K("len(distance_from_points)"), K("len(self.positions)"), K("self.positions.shape[0]"), K("distance_from_points.shape[0]"), K("len(self.distance)"))
-    upper_ok = set()
-    for L in length:
-        upper_ok |= {K("i1 + 1 >= %s" % L), K("i1 >= %s - 1" % L), K("i1 + 1 == %s" % L), K("i1 == %s - 1" % L)}
-    lower_ok = {K("i1 - 1 < 0"), K("i1 < 1"), K("i1 == 0"), K("i1 <= 0")}
-    arms = {}
-    bad = []
+    stores = [e for e in effects(g.node, inline=True, keep=("i1", "distance_from_points"), calls=True) if e.kind == "store" and isinstance(e.target, ast.Name) and e.target.id == "i2"]
+    if not stores:
+        raise AnalysisError("FineContour.getDistance: no store to i2 (the second interpolation point)")
+    lengths = {K("len(distance_from_points)"), K("len(self.positions)"), K("self.positions.shape[0]"), K("distance_from_points.shape[0]"), K("len(self.distance)"),
+               K("self.distance.shape[0]"), K("len(self)"), K("self.positions.shape[0]")}
+    # distance_from_points is a temporary that inlining replaces by its definition
+    def is_length(node):
+        t = mod.code(node)
+        if t in lengths:
+            return True
+        if isinstance(node, ast.Call) and mod.code(node.func) == "len" and len(node.args) == 1:
+            inner = mod.code(node.args[0])
+            return inner.startswith("numpy.sqrt(numpy.sum((self.positions") or inner.startswith("numpy.linalg.norm(self.positions")
+        return False
+
+    class _Len(ast.NodeTransformer):
+        def generic_visit(self, node):
+            if is_length(node):
+                return ast.copy_location(ast.Name(id="__n", ctx=ast.Load()), node)
+            return super().generic_visit(node)
+
+    def closed(node):
+        """compiled test over (i1, n), or None when it reads anything else"""
+        t = ast.fix_missing_locations(_Len().visit(ast.parse(ast.unparse(node), mode="eval")))
+        names = {x.id for x in ast.walk(t) if isinstance(x, ast.Name)}
+        if not names <= {"i1", "__n"} or any(isinstance(x, (ast.Call, ast.Attribute, ast.Subscript)) for x in ast.walk(t)):
+            return None
+        return compile(t, "<test>", "eval")
+
+    bad, unknown = [], []
+    arms = []
     for e in stores:
-        conds = [mod.code(c) for c in e.conds if not isinstance(c, str)]
-        v = mod.code(e.value)
-        arms.setdefault(v, []).append(conds)
-        for c in conds:
-            plain = c[3:] if c.startswith("not") else c
-            plain = plain.strip("()")
-            if ("endInd" in plain or "startInd" in plain):
-                bad.append("neighbour chosen by `%s`: the start/end marker is not where the fine contour ends" % c)
-    tests = {c[3:].strip("()") if c.startswith("not") else c for lst in arms.values() for conds in lst for c in conds}
-    has_upper = bool(tests & upper_ok)
-    has_lower = bool(tests & lower_ok)
-    geometric = any("closest_approach(" in t for t in tests)
-    ok = not bad and has_upper and has_lower and geometric and set(arms) <= {K("i1 - 1"), K("i1 + 1"), "1"}
+        idx, geo = [], False
+        for c in e.conds:
+            if isinstance(c, str):
+                unknown.append("store inside a loop/marker %s" % c)
+                continue
+            text = mod.code(c)
+            if "endInd" in text or "startInd" in text:
+                bad.append("neighbour chosen by `%s`: the start/end marker is not where the fine contour ends" % text[:80])
+                continue
+            if "closest_approach(" in text:
+                geo = True
+                want_v = _nearer_neighbour(c)
+                if want_v is None:
+                    unknown.append("geometric test `%s`" % text[:80])
+                elif K(want_v) != mod.code(e.value):
+                    bad.append("under `%s` the nearer adjacent segment ends at %s but the second point is %s" % (ast.unparse(c)[:90], want_v, ast.unparse(e.value)))
+                continue
+            k = closed(c)
+            if k is None:
+                unknown.append("test `%s`" % text[:80])
+            else:
+                idx.append(k)
+        v = closed(e.value)
+        if v is None:
+            unknown.append("value `%s`" % mod.code(e.value)[:60])
+        arms.append((idx, geo, v, mod.code(e.value)))
+    problems = []
+    if not bad and not unknown:
+        for n in range(2, 7):
+            for i1 in range(n):
+                envv = {"i1": i1, "__n": n}
+                live = [(geo, eval(v, {}, envv), txt) for idx, geo, v, txt in arms if all(eval(k, {}, envv) for k in idx)]
+                vals = {x[1] for x in live}
+                want = {j for j in (i1 - 1, i1 + 1) if 0 <= j < n}
+                if vals != want:
+                    problems.append("n=%d i1=%d: second point in %s, neighbours that exist are %s" % (n, i1, sorted(vals), sorted(want)))
+                elif len(want) == 2 and not all(geo for geo, _, _ in live):
+                    problems.append("n=%d i1=%d: both neighbours exist but the choice is not by closest approach" % (n, i1))
+    ok = not bad and not unknown and not problems
+    detail = ("definite: " + "; ".join(bad)) if bad else ("not representable: " + "; ".join(unknown[:3])) if unknown else ("definite: " + "; ".join(problems[:3])) if problems else \
+        "%d stores to i2 replayed for n=2..6, every i1" % len(arms)
     rep.ob("R3", "getDistance: a neighbour of the closest fine point is ruled out only where the array ends; otherwise the nearer adjacent segment is taken", ok, g.site(),
-           ("definite: " + "; ".join(bad)) if bad else "tests: %s; values: %s" % (sorted(tests), sorted(arms)), key="dist/neighbour")
+           detail, key="dist/neighbour")
 
 
 def reverse_rules(mod, rep):
